@@ -52,6 +52,8 @@ def annotate(script_lines, impl_blocks):
                     out.append("part %s -" % slot)
                 else:
                     out.append("part %s %s" % (slot, "|".join(",".join(m) for m in msgs)))
+        if t[0] == "connect" and len(t) > 3:
+            line = " ".join(t[:3])          # `slow` (a Connecting phase) is invisible to the model
         out.append(line)
     return out
 
